@@ -7,11 +7,22 @@
 (***************************************************************************)
 EXTENDS Integers, Sequences, FiniteSets
 
-Cfgs == [aslr : {"on", "off"}, cwd : {"short", "long/deeper/dir"}, path : {"abs", "rel", "dotted"}, env : {"small", "big"}]
-Base == [aslr |-> "on", cwd |-> "short", path |-> "abs", env |-> "small"]
+(* aslr: address-space randomisation; cwd / path: where the tool runs and how the input is named; env: size of the  *)
+(* environment block (moves the stack); locale: LC_ALL; heap: allocator layout (glibc tunables that change where   *)
+(* blocks land, so that a number read from a pointer or from freed memory changes)                                  *)
+Cfgs == [aslr : {"on", "off"}, cwd : {"short", "long/deeper/dir"}, path : {"abs", "rel", "dotted"}, env : {"small", "big"},
+         locale : {"C", "de_DE.UTF-8"}, heap : {"default", "mmap", "perturb"}]
+Base == [aslr |-> "on", cwd |-> "short", path |-> "abs", env |-> "small", locale |-> "C", heap |-> "default"]
 (* configurations that differ from the base in exactly one coordinate, and the all-different one *)
-OneOff == {c \in Cfgs : Cardinality({k \in {"aslr", "cwd", "path", "env"} : c[k] # Base[k]}) = 1}
-Far == [aslr |-> "off", cwd |-> "long/deeper/dir", path |-> "dotted", env |-> "big"]
+OneOff == {c \in Cfgs : Cardinality({k \in DOMAIN Base : c[k] # Base[k]}) = 1}
+Far == [aslr |-> "off", cwd |-> "long/deeper/dir", path |-> "dotted", env |-> "big", locale |-> "de_DE.UTF-8", heap |-> "perturb"]
+
+(* expression forms an aggregate bound, a string / binary width or a real precision may take: only a literal is a    *)
+(* number the generator may print; every other form has to be printed as text (or evaluated), never read as a number *)
+BoundForms == <<"3", "kn", "-kn", "2 + 1", "kn * 2", "kn - 1", "(kn)", "cntb", "-cntb", "cntb + kn", "fb(3)", "-fb(3)", "fb(kn)",
+                "SIZEOF(lst)", "-SIZEOF(lst)", "ABS(-kn)", "?">>
+LowerForms == <<"1", "0", "-1", "-kn", "kn", "-fb(1)", "-(kn)", "1 - kn">>
+WidthForms == <<"8", "kn", "kn + 1", "fb(2)", "-kn">>
 Plan(deep) == IF deep THEN Cfgs ELSE {Base} \cup OneOff \cup {Far}
 
 VARIABLES seen       \* [<<tool, input>> -> out] for the pairs run so far
